@@ -77,6 +77,10 @@ def gen(rng, tier):
         declared = j % 3 != 2
         path = ["/g%d" % (L + 5), "/g%d" % (L + 5), "/g%d" % max(L - 1, 0)][j % 3]
         cases.append("B %d ok %d %s" % (S, 1200, upload(path, L, cut, declared, False, rng.randint(1, 10**6), False)))
+    # the same with a stalled global logger and a garbage-sending client on a one-thread executor (mode E)
+    for j in range(2 if tier == "quick" else 12):
+        L = [70000, 65537, 200000][j % 3]
+        cases.append("E %d ok 0 %s" % (S, upload("/g%d" % (L + 5), L, [L // 2, 1][j % 2], True, False, rng.randint(1, 10**6), False)))
     # idle keep-alive: the client has read the answers and keeps the connection open without sending anything; no temp
     # file may be alive then (mode I: known-length uploads answered 2xx, one or two on the same connection)
     ni = 6 if tier == "quick" else 60
